@@ -366,7 +366,7 @@ type arrival struct {
 	pred *ssa.BasicBlock
 }
 
-const maxSteps = 400000
+const maxSteps = 60000
 
 // run executes from blk (entered from pred) until reaching stop; returns arrivals at stop.
 func (fx *Fx) run(st *State, blk, pred, stop *ssa.BasicBlock) []arrival {
@@ -441,7 +441,7 @@ func (fx *Fx) runX(st *State, blk, pred, stop *ssa.BasicBlock, phisDone bool) []
 			s2 := st
 			s2.PC = And(st.PC, Not(c))
 			fx.depth++
-			if fx.depth > 6000 {
+			if fx.depth > 1500 {
 				fx.fail("fork depth exceeded in %s (a loop needs an invariant?)", fnName(fn))
 			}
 			a1 := fx.run(s1, blk.Succs[0], blk, j)
@@ -584,7 +584,7 @@ func (fx *Fx) execInstr(st *State, ins ssa.Instruction) {
 	switch x := ins.(type) {
 	case *ssa.DebugRef:
 	case *ssa.Alloc:
-		lo := st.NewLocal(true, x.Comment)
+		lo := fx.newLocal(st, true, x.Comment)
 		fx.set(st, x, Val{L: []*Term{LocalObj(lo.ID), BVConst(0, 64)}})
 	case *ssa.BinOp:
 		fx.set(st, x, fx.binop(st, x))
@@ -645,12 +645,12 @@ func (fx *Fx) execInstr(st *State, ins ssa.Instruction) {
 	case *ssa.MakeSlice:
 		fx.makeSlice(st, x)
 	case *ssa.MakeMap, *ssa.MakeChan:
-		lo := st.NewLocal(true, "map")
+		lo := fx.newLocal(st, true, "map")
 		st.Escaped[lo.ID] = true
 		fx.set(st, x.(ssa.Value), Val{L: []*Term{LocalObj(lo.ID)}})
 	case *ssa.MakeClosure:
 		fnv := x.Fn.(*ssa.Function)
-		lo := st.NewLocal(true, "closure")
+		lo := fx.newLocal(st, true, "closure")
 		lo.Const = true
 		// bindings stored in the closure object, in order
 		var off int64
@@ -889,7 +889,7 @@ func (fx *Fx) binop(st *State, x *ssa.BinOp) Val {
 		switch x.Op {
 		case token.ADD:
 			fx.noteHavocSoft("string concatenation")
-			lo := st.NewLocal(false, "strcat")
+			lo := fx.newLocal(st, false, "strcat")
 			ln := BVOp("bvadd", a.Len(), b.Len())
 			return Val{L: []*Term{LocalObj(lo.ID), BVConst(0, 64), ln}}
 		default:
@@ -1115,14 +1115,14 @@ func (fx *Fx) convert(st *State, x *ssa.Convert) Val {
 		}
 		if _, ok := tu.(*types.Slice); ok && fb.Info()&types.IsString != 0 {
 			// []byte(string): fresh copy
-			lo := st.NewLocal(false, "bytes_of_string")
+			lo := fx.newLocal(st, false, "bytes_of_string")
 			fx.copyRange(st, K8, LocalObj(lo.ID), BVConst(0, 64), a.Obj(), a.Off(), a.Len(), True())
 			return Val{L: []*Term{LocalObj(lo.ID), BVConst(0, 64), a.Len(), a.Len()}}
 		}
 	}
 	if _, ok := fu.(*types.Slice); ok {
 		if tb, ok := tu.(*types.Basic); ok && tb.Info()&types.IsString != 0 {
-			lo := st.NewLocal(false, "string_of_bytes")
+			lo := fx.newLocal(st, false, "string_of_bytes")
 			fx.copyRange(st, K8, LocalObj(lo.ID), BVConst(0, 64), a.Obj(), a.Off(), a.Len(), True())
 			return Val{L: []*Term{LocalObj(lo.ID), BVConst(0, 64), a.Len()}}
 		}
@@ -1139,7 +1139,7 @@ func (fx *Fx) makeInterface(st *State, v Val, t types.Type) Val {
 	if _, ok := t.Underlying().(*types.Pointer); ok {
 		return Val{L: []*Term{tag, v.L[0], v.L[1]}}
 	}
-	lo := st.NewLocal(true, "box")
+	lo := fx.newLocal(st, true, "box")
 	lo.Const = true
 	v.T = t
 	st.Store(LocalObj(lo.ID), BVConst(0, 64), v)
@@ -1320,7 +1320,7 @@ func (fx *Fx) makeSlice(st *State, x *ssa.MakeSlice) {
 	g := And(BVOp("bvsle", BVConst(0, 64), ln), BVOp("bvsle", ln, cp), BVOp("bvule", cp, BVConst(1<<56, 64)))
 	fx.oblige(st, "bounds", "make:"+fx.site(x, x.Pos()), g, x.Pos())
 	fx.assume(st, g)
-	lo := st.NewLocal(true, "make")
+	lo := fx.newLocal(st, true, "make")
 	fx.set(st, x, Val{L: []*Term{LocalObj(lo.ID), BVConst(0, 64), ln, cp}})
 }
 
@@ -1431,4 +1431,45 @@ func (fx *Fx) impliedByAssumption(st *State, goal *Term) bool {
 		}
 	}
 	return true
+}
+
+// newLocal allocates a new object: it differs from every object the current activation can name, including the
+// symbolic ones (loop-carried or returned by callees), which were allocated earlier.
+func (fx *Fx) newLocal(st *State, zero bool, name string) *LObj {
+	lo := st.NewLocal(zero, name)
+	L := LocalObj(lo.ID)
+	seen := map[*Term]bool{}
+	var leaves []*Term
+	var scan func(t *Term)
+	scan = func(t *Term) {
+		if seen[t] || t.S != IntS {
+			return
+		}
+		seen[t] = true
+		if t.Op == "ite" {
+			scan(t.Args[1])
+			scan(t.Args[2])
+			return
+		}
+		if t.Local > 0 || t.Op == "int" || isPre(t) {
+			return
+		}
+		leaves = append(leaves, t)
+	}
+	for _, f := range st.Frames {
+		for _, v := range f.Vals {
+			if len(v.L) == 0 || len(v.L) > 8 {
+				continue
+			}
+			for _, l := range v.L {
+				if l.S == IntS {
+					scan(l)
+				}
+			}
+		}
+	}
+	for _, t := range leaves {
+		fx.assume(st, Not(Eq(t, L)))
+	}
+	return lo
 }
